@@ -5,7 +5,6 @@ import numpy as np
 from .. import core, gen
 
 ID = 'C05'
-FOUNDATIONS = ['harness.foundation.concurrent', 'harness.foundation.soak']   # the property's own functions under concurrent calls (validation; proofs in C12)
 LEVEL = 'proof'
 RULE = ('corpus (design-phase witnesses); exhaustive scope: every boolean image of shape 3x4, 2x2x3 and the smaller '
         'grids (thorough: all; quick: a seeded slice); random 1-4 D boolean/integer images x 7 layouts x both metrics: '
